@@ -7,14 +7,14 @@ any completion order of the parallel column writers — and rotations) and EVERY
 file-system steps (process-crash model: completed calls persist, no torn writes), `crashAfter h k` is the data
 directory a restart finds; `visible` is what a match-all search then serves (startup adopts the lines of
 segmeta.json and every directory whose .sfm parses; it reads every block summary present), `completed h k` are
-the flushes whose last step (the write of the running .sfm) lies within the first k steps, `inflight h k` the
-flush that was cut.
+the flushes whose last step (the rename that puts the running .sfm in place) lies within the first k steps,
+`inflight h k` the flush that was cut.
 
-Finding: statement 1 is FALSE for the write order of the code: `WriteSfm` opens the running .sfm with O_TRUNC
-and writes afterwards; a crash in between leaves a zero-byte .sfm, and the open segment — with ALL its earlier,
-completed flushes — is not adopted (`crash_prefix_safe_counterexample`, replayed on the real code by the crash
-suite).  It is proved under the guard "the crash is not inside that window" (`crash_prefix_safe_partial`).
-Statements 2–4 hold without guard.
+History of the finding: `WriteSfm` used to open the running .sfm with O_TRUNC and write afterwards; a crash in
+between left a zero-byte .sfm, and the open segment — with ALL its earlier, completed flushes — was not adopted.
+Statement 1 was therefore false (`crash_prefix_safe_counterexample_old`, about the `…Old` step lists, which are
+kept only for this theorem; the crash suite had replayed it on the real code).  Since the repair (write
+`<segkey>.sfm.tmp`, Sync, rename onto `<segkey>.sfm`) statement 1 holds at full strength (`crash_prefix_safe`).
 -/
 import SigModel.Model.Crash
 import SigModel.Lemmas.C07d
@@ -28,41 +28,44 @@ def CrashPrefixSafe : Prop :=
   ∀ (h : Hist) (k : Nat),
     (∀ f ∈ completed h k, f ∈ visible (crashAfter h k)) ∧ (visible (crashAfter h k)).Nodup
 
+/-- C07.1 holds for the write order of the code: every completed flush is served exactly once — for all
+histories and all crash points, no guard. -/
+theorem crash_prefix_safe : CrashPrefixSafe := fun h k =>
+  let G := SigModel.Lemmas.C07.crashAfter_good h k
+  ⟨G.2.2.2.1, G.1⟩
+
+/-- the same statement about the protocol BEFORE the repair of `WriteSfm` (truncate in place, then write) -/
+def CrashPrefixSafeOld : Prop :=
+  ∀ (h : Hist) (k : Nat),
+    (∀ f ∈ completedOld h k, f ∈ visible (crashAfterOld h k)) ∧ (visible (crashAfterOld h k)).Nodup
+
 /-- the minimal history: two flushes into one segment, crash inside the second flush's `WriteSfm` -/
 def cexHist : Hist := [.fl [0], .fl [0]]
 
-/-- step 14 of that history is the truncating open of the second flush's `WriteSfm` -/
-example : ((steps cexHist).take 14).getLast? = some (.sfmTrunc 0) := by decide
+/-- step 14 of that history in the old protocol is the truncating open of the second flush's `WriteSfm` -/
+example : ((stepsOld cexHist).take 14).getLast? = some (.sfmTrunc 0) := by decide
 
-example : inSfmWindow cexHist 14 = true := by decide
-
-/-- C07.1 is violated by the code's write order: flush 0 had completed (its .sfm was written at step 9), yet
-after a crash right behind step 14 the restart serves nothing at all. -/
-theorem crash_prefix_safe_counterexample : ¬ CrashPrefixSafe := by
+/-- The old write order violated C07.1: flush 0 had completed (its .sfm was written at step 9), yet after a
+crash right behind step 14 the restart served nothing at all. -/
+theorem crash_prefix_safe_counterexample_old : ¬ CrashPrefixSafeOld := by
   intro H
-  have h0 : (0 : Nat) ∈ completed cexHist 14 := by decide
-  have hv : visible (crashAfter cexHist 14) = [] := by decide
+  have h0 : (0 : Nat) ∈ completedOld cexHist 14 := by decide
+  have hv : visible (crashAfterOld cexHist 14) = [] := by decide
   have := (H cexHist 14).1 0 h0
   rw [hv] at this
   cases this
 
-/-- C07.1 under the guard "the crash did not hit between the O_TRUNC open and the write of a .sfm": every
-completed flush is served exactly once — for all histories and all crash points. -/
-theorem crash_prefix_safe_partial (h : Hist) (k : Nat) (hg : inSfmWindow h k = false) :
-    (∀ f ∈ completed h k, f ∈ visible (crashAfter h k)) ∧ (visible (crashAfter h k)).Nodup :=
-  let G := SigModel.Lemmas.C07.crashAfter_good h k
-  ⟨G.2.2.2.1 hg, G.1⟩
-
-/-- the guard is satisfiable and the guarded statement is not vacuous: one step earlier (and one step later)
-both flushes are served -/
-example : inSfmWindow cexHist 13 = false ∧ completed cexHist 13 = [0] ∧ visible (crashAfter cexHist 13) = [0, 1] := by
-  decide
-example : inSfmWindow cexHist 15 = false ∧ completed cexHist 15 = [0, 1] ∧ visible (crashAfter cexHist 15) = [0, 1] := by
-  decide
+/-- the same cut in the repaired protocol (step 14 = .sfm.tmp written, not yet renamed): flush 0 is served, and
+so is the block of the flush in progress; after the rename (15) both are completed -/
+example : ((steps cexHist).take 14).getLast? = some (.sfmTmp 0 [0, 1]) ∧
+    completed cexHist 14 = [0] ∧ inflight cexHist 14 = some 1 ∧ visible (crashAfter cexHist 14) = [0, 1] := by decide
+example : completed cexHist 15 = [0, 1] ∧ visible (crashAfter cexHist 15) = [0, 1] := by decide
+/-- before the block summary of the second flush is written only the first one is served -/
+example : completed cexHist 10 = [0] ∧ inflight cexHist 10 = some 1 ∧ visible (crashAfter cexHist 10) = [0] := by decide
 
 /-- C07.2 the flush in progress is served entirely or not at all: no block that the restart serves misses any of
 its column chunks (`torn` = block summaries of adopted segments that point at chunks which are not on disk), and
-no flush is served twice — at every crash point, without guard. -/
+no flush is served twice — at every crash point. -/
 theorem inflight_atomic (h : Hist) (k : Nat) :
     torn (crashAfter h k) = [] ∧ (visible (crashAfter h k)).Nodup :=
   let G := SigModel.Lemmas.C07.crashAfter_good h k
